@@ -130,7 +130,22 @@ func hashShapePair(t *rapid.T) (a, b val.V) {
 		}
 		return x, y
 	}
-	switch gen.Int(t, "hashShape", 0, 8) {
+	switch gen.Int(t, "hashShape", 0, 10) {
+	case 9, 10: // a member moved from behind a nested object into its end
+		inner := gen.Pick(t, "mmInner", []val.V{map[string]val.V{"b": 1.0}, map[string]val.V{}, map[string]val.V{"b": map[string]val.V{"x": 1.0}}})
+		moved := gen.Pick(t, "mmMoved", []val.V{2.0, "s", []val.V{1.0}, nil})
+		in1 := val.Clone(inner).(map[string]val.V)
+		in2 := val.Clone(inner).(map[string]val.V)
+		in2["c"] = moved
+		x := map[string]val.V{"a": in1, "c": moved}
+		y := map[string]val.V{"a": in2}
+		if gen.Chance(t, "mmLead", 40) {
+			x["0"], y["0"] = 0.0, 0.0
+		}
+		if gen.Chance(t, "btInList", 50) {
+			return wrap([]val.V{0.0, x, 5.0}, []val.V{0.0, y, 5.0})
+		}
+		return wrap(x, y)
 	case 7, 8: // the same scalars in the same order, a nested list closing at another place
 		x, y := gen.BracketTwins(t)
 		if gen.Chance(t, "btInList", 50) {
@@ -208,7 +223,23 @@ var _ = rapid.Bool
 func twinArrays(t *rapid.T) ([]val.V, []val.V) {
 	buildTwins()
 	var x, y val.V
-	switch gen.Int(t, "twinKind", 0, 6) {
+	switch gen.Int(t, "twinKind", 0, 7) {
+	case 7: // equal elements that spell a zero inside them with another sign (see below: no twin, an equal pair)
+		z := math.Copysign(0, -1)
+		x, y = gen.Pick(t, "zeroHolder", []val.V{[]val.V{0.0, 1.0}, map[string]val.V{"z": 0.0}, []val.V{[]val.V{0.0}}}), nil
+		switch h := x.(type) {
+		case []val.V:
+			if inner, ok := h[0].([]val.V); ok {
+				y = []val.V{[]val.V{z}, inner[1:]}
+				y = []val.V{[]val.V{z}}
+			} else {
+				y = []val.V{z, 1.0}
+			}
+		case map[string]val.V:
+			y = map[string]val.V{"z": z}
+		}
+		// equal elements at shifted positions: only the alignment can keep them
+		return []val.V{x, "t"}, []val.V{9.0, y, "t"}
 	case 4, 5: // elements that differ only in their bracketing
 		x, y = gen.BracketTwins(t)
 	case 6: // objects whose values are exchanged between the keys
